@@ -134,6 +134,15 @@ Theorem C10_tokens_distinct : forall h e g bl ins,
 Proof. exact C10_tokens_distinct_proof. Qed.
 Print Assumptions C10_tokens_distinct.
 
+(* the invariant behind 6' is inductive: ANY loop iteration from ANY state that satisfies the pool
+   bookkeeping invariant Inv (ServerP) and the token invariant TInv (ServerRunP: every pooled object is
+   server-side and holds a non-zero token once it holds a key; every object of `connections` holds a
+   key; different pooled objects never share a non-zero token) leads to a state that satisfies TInv *)
+Theorem C10_token_invariant_step : forall h e s i phi,
+  Inv s phi -> TInv s -> TInv (fst (srv_step h e s i)).
+Proof. exact C10_token_invariant_step_proof. Qed.
+Print Assumptions C10_token_invariant_step.
+
 (* every object of `connections` (promoted = connected) holds a non-zero token and a session key *)
 Theorem C10_connected_have_token : forall h e g bl ins cl,
   In cl (s_conns (fst (srv_life h e g bl ins))) ->
